@@ -449,6 +449,61 @@ pub fn builder_footer_changes(pools: &Pools, r: &mut Report) {
     }
 }
 
+/// ONE builder object asked to build under key K1, then K2, then K1 again: every token belongs to the key it was built
+/// with - it opens under that key and under no other (a builder that keeps key material from its first use signs or
+/// encrypts the later tokens with the wrong key)
+pub fn builder_key_changes(pools: &Pools, r: &mut Report) {
+    for &p in &ALL {
+        if pools.count(p) < 2 {
+            r.inconclusive.push(format!("C04 builder key changes need two keys for {}", p.name()));
+            continue;
+        }
+        let keys = [pools.key(p, 0), pools.key(p, 1)];
+        let order = [0usize, 1, 0, 1, 1];
+        for layer in [Layer::Generic, Layer::Batteries] {
+            let toks: Vec<Out<String>> = if layer == Layer::Generic {
+                let mut ops = vec![GOp::Set(Claim::Custom("data".into(), json!("key changes"))), GOp::Set(Claim::Exp("2999-01-01T00:00:00+00:00".into()))];
+                for k in order {
+                    ops.push(GOp::UseKey(Box::new(keys[k].clone())));
+                    ops.push(GOp::Build);
+                }
+                generic_run(p, &keys[0], &ops)
+            } else {
+                let mut ops = vec![BOp::Set(Claim::Custom("data".into(), json!("key changes")))];
+                for k in order {
+                    ops.push(BOp::UseKey(Box::new(keys[k].clone())));
+                    ops.push(BOp::Build);
+                }
+                batteries_run(p, &keys[0], &ops)
+            };
+            for (n, (t, k)) in toks.iter().zip(order).enumerate() {
+                r.evaluations += 2;
+                let tag = format!("{}/{}", p.name(), layer.name());
+                let replay = json!({"cmd": "C04-reuse", "note": "builder key-change case: re-run the check", "p": p.name(), "layer": layer.name(), "build_no": n + 1});
+                let tok = match t {
+                    Out::Ok(t) => t,
+                    o => {
+                        r.violation(format!("C04 builder-key-change build-failed {}", tag), format!("{}: build #{} failed: {}", tag, n + 1, o.brief()), replay);
+                        continue;
+                    }
+                };
+                let own = open_any(layer, p, &keys[k], tok, None, None).is_ok();
+                let other = open_any(layer, p, &keys[1 - k], tok, None, None).is_ok();
+                if !own || other {
+                    r.violation(
+                        format!("C04 builder-key-change {} build={}", tag, n + 1),
+                        format!("{}: ONE builder, build #{} was given key{}: the token opens under that key = {}, under the OTHER key = {} (keys used so far: {:?})", tag, n + 1, k, own, other, &order[..=n]),
+                        replay,
+                    );
+                } else {
+                    r.count(&format!("{} builder key changed: token #{} belongs to the key it was built with", tag, n + 1));
+                    r.distinct(format!("{}|key-change|{}", tag, n));
+                }
+            }
+        }
+    }
+}
+
 /// ONE builder whose implicit assertion is changed between builds (incl. back to the empty one): every token must be
 /// bound to the assertion in force at its build, and to no other
 pub fn builder_assertion_changes(pools: &Pools, r: &mut Report) {
@@ -777,6 +832,7 @@ pub fn run_c04(tier: &str, seed: u64) -> Report {
     let cases = recent_sessions_take();
     nested_pairs("C04", &cases, if thorough { 2000 } else { 160 }, seed, &mut rs);
     c04_long_sessions(&pools, seed, thorough, &mut rs);
+    builder_key_changes(&pools, &mut rs);
     rs.require("nested parser pairs: both answer as alone", 60);
     total.merge(rs);
     for &p in &ALL {
@@ -805,7 +861,7 @@ pub fn replay_c04(case: &Value) -> Report {
     r
 }
 
-pub const RULE_C04: &str = "per protocol 24 (thorough 1500) authentic tokens built at core/generic/batteries layer (footer none/text/empty, assertion none/text) are presented at the same layer under every single-bit neighbour of the key (all 256 bits of symmetric and Ed25519 public keys, all 392 bits of the compressed P-384 point, all bits of the RSA public-key DER), all-zero, all-one, 50 random (1500 for local tokens whose plaintext is 0-2 bytes, incl. the claim-less '{}' of the generic builder: garbage from an unauthenticated decryption is well-formed only when short), rotated/reversed/half-zeroed keys, every other pool key, and for v3.public the ECDSA 'duplicate-signature' keys recovered from the token's own signature over the specified digest and over five binding-free digest variants (the signer's key must be the only recovered key that is accepted); NESTED parser pairs (160, thorough 2000: a second parser object of any protocol/layer is created, used and dropped in the middle of another parser's session on the same thread; both must answer as they do alone); parser sessions incl. LONG ones (one parser object, 3000 (thorough 20000-70000) parses of right-key / other-key / one-character-changed presentations of 300 distinct tokens in a seeded order); oracle: any Ok under another key is a violation (a key that fails to parse counts as 'fails'); distinct_nontrivial = distinct (protocol, layer, key class, rejection variant)";
+pub const RULE_C04: &str = "per protocol 24 (thorough 1500) authentic tokens built at core/generic/batteries layer (footer none/text/empty, assertion none/text) are presented at the same layer under every single-bit neighbour of the key (all 256 bits of symmetric and Ed25519 public keys, all 392 bits of the compressed P-384 point, all bits of the RSA public-key DER), all-zero, all-one, 50 random (1500 for local tokens whose plaintext is 0-2 bytes, incl. the claim-less '{}' of the generic builder: garbage from an unauthenticated decryption is well-formed only when short), rotated/reversed/half-zeroed keys, every other pool key, and for v3.public the ECDSA 'duplicate-signature' keys recovered from the token's own signature over the specified digest and over five binding-free digest variants (the signer's key must be the only recovered key that is accepted); ONE builder object building under key1, key2, key1, key2, key2 (each token opens under the key it was built with and under no other); NESTED parser pairs (160, thorough 2000: a second parser object of any protocol/layer is created, used and dropped in the middle of another parser's session on the same thread; both must answer as they do alone); parser sessions incl. LONG ones (one parser object, 3000 (thorough 20000-70000) parses of right-key / other-key / one-character-changed presentations of 300 distinct tokens in a seeded order); oracle: any Ok under another key is a violation (a key that fails to parse counts as 'fails'); distinct_nontrivial = distinct (protocol, layer, key class, rejection variant)";
 
 // ==========================================================================================
 // C05
